@@ -51,7 +51,7 @@ def rewrite_tree(src_dir: Path, map_path: str = "crate::verif_map") -> dict:
         totals["async_fn"] += vals[0]
         totals["async_block"] += vals[1] + vals[2]
         totals["await"] += vals[3]
-        totals["hashmap_use"] += vals[4] + vals[5] + n_grp
+        totals["hashmap_use"] += vals[4] + vals[5] + vals[6] + n_grp
         totals["files"] += 1
         masked = _mask_non_code(s2)
         if re.search(r"\basync\b", masked) or re.search(r"\.\s*await\b", masked):
